@@ -130,7 +130,8 @@ def field_table(ctx) -> Dict[str, Dict[str, str]]:
                     # goes stale when the object moves unless move() re-assigns or invalidates it
                     table[cname][f] = "cache"
                     continue
-                raise AnalysisError("cannot classify field %s.%s of type %s" % (cname, f, show(ty)))
+                # anything else stored on a geometry object (tuples of offsets, lists of vectors, ...): derived state
+                table[cname][f] = "cache"
     ctx.cache["c07.fields"] = table
     return table
 
@@ -422,6 +423,15 @@ def check_move(ctx, res, cname: str, fields: Dict[str, str]):
         st_before = IN[r.id]
         for f in pos:
             ok = f in st_before.fresh
+            if not ok and fields.get(f) == "cache":
+                # a stored derived value that does not depend on the position survives the move as it is
+                from ..transl import invariant
+                k_ = ctx.transl.field_kind(cname, f)
+                if invariant(k_):
+                    res.ob("R7.1", fi.where(r.ast), "%s.move and the stored value %s" % (cname, f), True,
+                           "every value stored into `%s` is translation invariant (built from differences of positions, lengths, "
+                           "directions): it needs no refresh" % f)
+                    continue
             res.ob("R7.1", fi.where(r.ast), "%s.move refreshes %s" % (cname, f), ok,
                    "translated / rebuilt from moved state on every path" if ok else "still holds pre-move data at `%s`" % txt(r.ast)[:50])
             if not ok:
